@@ -131,6 +131,8 @@ def run(chk, ctx) -> None:
     showing_components(Refile(chk, {'C12.show_flags': 'C15.record', 'C12.show_all': 'C15.record'},
                               only=lambda r, c: c.endswith(':cards') or r == 'C12.show_all'), ctx)
     chk.floor('C15.record', 17)
+    from .cover import records_inert
+    records_inert(chk, ctx, 'C15.record')
 
     _instance_state(chk, ctx)
     _nondeterminism(chk, ctx)
